@@ -316,7 +316,7 @@ Proof.
       * intros d Pd. apply post_ret. rewrite forallb_app, Pin. cbn [forallb]. rewrite Pd. reflexivity.
   - cbn [c10_item_ok] in Hit. rewrite !andb_true_iff in Hit. destruct Hit as [[[[Hid Hg] Ht] Hd] _].
     unfold c10_type_id_ok in Hid. apply andb_true_iff in Hid as [_ Hren].
-    eapply post_bind; [exact (py_texp_ok _ _ Ht)|]. intros ty Pty. apply post_ret.
+    eapply post_bind; [exact (py_texp_ok _ _ Ht)|]. intros ty Pty. eapply post_bind; [exact (py_add_type_vars_post _ Hg)|]. intros _ _. apply post_ret.
     cbn [forallb c10_py_decl_ok]. rewrite (docs_ok_of_doc _ Hd), (ident_tok _ Hren), (generics_tok _ Hg), Pty. reflexivity.
   - cbn [c10_item_ok] in Hit. rewrite !andb_true_iff in Hit. destruct Hit as [Hid Ht].
     unfold c10_type_id_ok in Hid. apply andb_true_iff in Hid as [_ Hren].
